@@ -18,7 +18,7 @@ T3: for the feature / Merkle / callee-shape / FRI programs and part of the rando
 Self-test (binding): a recording with one corrupted chiplet row (memory bag; hasher / bitwise / memory / kernel ROM cell)
     must be rejected.
 """
-import json, os
+import json, os, re
 from lib.common import *
 from lib import vmtrace, progen
 
@@ -127,6 +127,14 @@ def run(tier, replay=None):
         if res["outcome"] != "ok":
             ck.violation("aux:%s:%s" % (res["outcome"], p["class"]), "auxiliary columns could not be built: %s" % str(res)[:300], {"kind": "aux", "program": p})
             continue
+        # the stack overflow table's final state depends on the public inputs (rows left for outputs below position 15):
+        # its column is judged by the AIR's boundary assertions instantiated with this execution's inputs and outputs
+        so = cols.index("stack_overflow")
+        bad = [a for a in res.get("assert_viol", []) if re.match(r"aux\[\d+\]\(%d, " % so, a)]
+        nterm += len(res["aux_last"])
+        if bad:
+            ck.violation("terminal:stack_overflow:%s" % p["class"].split(":deep")[0], "the stack overflow table does not start / end in the state the public inputs define (assertion %s) | program: %s" % (
+                bad[0], p.get("src", "").replace("\n", " ")[:200]), {"kind": "aux", "program": p, "column": "stack_overflow"})
         for c in range(len(res["aux_last"])):
             for ci, (name, t) in enumerate(zip(cols, term)):
                 last, first = res["aux_last"][c][ci], res["aux_first"][c][ci]
